@@ -132,7 +132,7 @@ def loader_functions(prog, an, pubs):
                 if i["callee"][0] == "f":
                     g = prog.resolve(f.unit, i["callee"][1])
                     targets = [g] if g else []
-                elif i["callee"][0] == "i":
+                elif i["callee"][0] in ("i", "a"):
                     targets = indirect_targets(prog, f, i)
                 for g in targets:
                     nk = set()
@@ -344,7 +344,7 @@ def run(ctx, rep):
         if cfg is None:
             rep.floor("C10.R1", "key-setting public entry points", nkey, 13)
             rep.floor("C10.R2", "delegating call arguments", ndel, 30)
-            rep.floor("C10.R4", "tweakey loader functions", nload, 6)
+            rep.floor("C10.R4", "tweakey loader functions", nload, 2)
             rep.floor("C10.R5", "round-count selectors", nsel, 2)
         else:
             ctx.release(cfg)
